@@ -5624,7 +5624,19 @@ def merge_parts(parts, reassign="voice"):
     # find the unique number of voices for each part (voice numbers start from 1)
     unique_voices = [np.unique(note_array["voice"]) for note_array in note_arrays]
     # find the unique number of staves for each part
-    unique_staves = [np.unique(note_array["staff"]) for note_array in note_arrays]
+    # (a missing staff counts as staff 1; staves are also used by clefs, words
+    # and directions, possibly on staves without notes)
+    unique_staves = [
+        np.unique(
+            [max(int(s), 1) for s in note_array["staff"]]
+            + [
+                e.staff
+                for e in part.iter_all()
+                if isinstance(e, (Words, Direction, Clef)) and e.staff is not None
+            ]
+        ).astype(int)
+        for note_array, part in zip(note_arrays, parts)
+    ]
     # find the maximum number of voices for each part (voice numbers start from 1)
     maximum_voices = [max(unique_voice, default=1) for unique_voice in unique_voices]
     # find the maximum number of staves for each part
@@ -5715,7 +5727,7 @@ def merge_parts(parts, reassign="voice"):
                         # new voice is computed as the sum of voices in staves in previous parts, plus the current
                         e.voice = voice_mapping[e.voice]
                     if isinstance(e, (GenericNote, Words, Direction, Clef)):
-                        e.staff = staff_mapping[e.staff]
+                        e.staff = staff_mapping[e.staff if e.staff is not None else 1]
                 new_part.add(e, start=new_start, end=new_end)
 
                 # new_part.add(copy.deepcopy(e), start=new_start, end=new_end)
